@@ -1,11 +1,15 @@
 #!/usr/bin/env python3
 """design_tables.py: print the markdown tables of DESIGN.md section 7 (findings, seeded changes, measured costs) from
 known_findings.json, seeded/*/meta.json and evidence/*.json, so that the document is regenerated, not retyped."""
-import glob, json, os
+import glob, io, json, os, re, sys
 
 V = "/verif"
 kf = json.load(open(os.path.join(V, "known_findings.json")))["findings"]
-print("#### Findings\n")
+out = {}
+buf = io.StringIO()
+_print = print
+def print(*a):
+    _print(*a, file=buf)
 print("| id | properties | status | commit | what failed |")
 print("|---|---|---|---|---|")
 for f in kf:
@@ -19,7 +23,7 @@ for f in kf:
         what = parts[2]
     print("| %s | %s | %s | %s | %s |" % (f["id"], ",".join(f["properties"]), f["status"], f.get("commit") or "-", what.replace("|", "\\|")))
 
-print("\n#### Seeded changes\n")
+out["findings"] = buf.getvalue(); buf = io.StringIO()
 print("| change | file(s) | caught by (quick tier) | what it breaks | note |")
 print("|---|---|---|---|---|")
 for d in sorted(glob.glob(os.path.join(V, "seeded", "*"))):
@@ -42,10 +46,17 @@ for d in sorted(glob.glob(os.path.join(V, "seeded", "*"))):
     note = (m.get("note") or "").replace("\n", " ").replace("|", "\\|")
     print("| %s | %s | %s | %s | %s |" % (os.path.basename(d), files, ", ".join(m.get("caught_by") or []) or "**none**", summ, note))
 
-print("\n#### Measured cost and volume (last committed evidence)\n")
+out["seeded"] = buf.getvalue(); buf = io.StringIO()
 print("| id | tier | wall s | evaluations | distinct non-trivial | excluded (known) |")
 print("|---|---|---|---|---|---|")
 for f in sorted(glob.glob(os.path.join(V, "evidence", "C*.json"))):
     e = json.load(open(f))
     c = e.get("coverage", {})
     print("| %s | %s | %s | %s | %s | %s |" % (e.get("property_id"), e.get("tier"), e.get("wall_s"), c.get("evaluations"), c.get("distinct_nontrivial"), c.get("excluded_known", c.get("excluded", ""))))
+out["cost"] = buf.getvalue()
+d = os.path.join(V, "DESIGN.md")
+doc = open(d).read()
+for k, v in out.items():
+    doc = re.sub(r"(<!-- TABLES:%s:BEGIN -->\n).*?(<!-- TABLES:%s:END -->)" % (k, k), lambda m: m.group(1) + v + m.group(2), doc, flags=re.S)
+open(d, "w").write(doc)
+_print("DESIGN.md tables regenerated:", {k: v.count("\n") for k, v in out.items()})
